@@ -16,7 +16,10 @@ RULE = (
 	'tab/4-space, decimal/hex; plus every shipped .cats file) x the 14 operators of the catalogue (Model/Cats/Corrupt.lean: unsupported integer '
 	'width, wrong case class, one-character name, unknown keyword / attribute / transform / condition operator, missing operand / bracket / `=` / '
 	'final line end, member outside its declaration, struct without members, wrong attribute arity) x every applicable site (quick tier: up to 4 '
-	'sites per document and operator, chosen from VERIF_SEED). A case is distinct by the corrupted text; non-trivial = the real parser ran on it. '
+	'sites per document and operator, chosen from VERIF_SEED); plus the three operators that move a line end (join-lines / join-lines-flush: the '
+	'line end between two neighbouring lines removed, indentation of the second kept / dropped, sampled per class of the two lines - code, comment, '
+	'attribute, header, member, import, blank; split-line: a line end inserted in front of a token), whose results are ill-formed exactly when the '
+	'Lean language model rejects them. A case is distinct by the corrupted text; non-trivial = the real parser ran on it. '
 	'Command line: the corrupted text as a file reached through imports of a valid root, in six layouts: nested directory; a name that differs '
 	'only in letter case from an earlier well-formed import, from the root, in a directory component; a name equal to an earlier one only under '
 	'case folding / unicode normalisation.')
@@ -69,6 +72,8 @@ class Corruptor:
 	def __init__(self, ctx):
 		self.ctx = ctx
 		self.operators = ctx.driver.ask('ops').split(',')
+		# operators that move a line end: not every result is ill-formed, the language model says which are
+		self.arbitrated = [name for name in ctx.driver.ask('arbitrated-ops').split(',') if name]
 		self.cli_by_operator = {}
 		self.reported = {'corr': 0, 'property': 0}
 
@@ -113,6 +118,55 @@ class Corruptor:
 						bucket.append(case)
 
 
+	def check_arbitrated(self, text, label, thorough):
+		"""join-lines / join-lines-flush / split-line: a line end removed between two lines (every pair of neighbours, sampled per class of
+		the two lines) or inserted in front of a token. Ill-formed is what the language model rejects: the parser must reject exactly that."""
+		ctx = self.ctx
+		lines = text.split('\n')
+		for operator in self.arbitrated:
+			count = int(ctx.driver.ask(f'count {operator} {sx(text)}'))
+			ctx.count(f'sites:{operator}', count)
+			if operator.startswith('join-lines'):
+				classes = {}
+				for site in range(count):
+					classes.setdefault(f'{line_kind(lines[site])}+{line_kind(lines[site + 1])}', []).append(site)
+				picked = []
+				for _, sites in sorted(classes.items()):
+					picked += ctx.rng.sample(sites, min(len(sites), 3 if thorough else 1))
+				if not thorough and len(picked) > 8:
+					picked = ctx.rng.sample(picked, 8)
+			else:
+				classes = None
+				picked = ctx.rng.sample(range(count), min(count, 60 if thorough else 5))
+			for site in sorted(picked):
+				answer = ctx.driver.ask(f'variant {operator} {site} {sx(text)}')
+				encoded, model_verdict = answer.split(':')
+				corrupted = bytes.fromhex(encoded).decode('utf8') if '-' != encoded else ''
+				verdict = reject_verdict(corrupted)
+				kind = f'{line_kind(lines[site])}+{line_kind(lines[site + 1])}' if classes is not None else 'split'
+				case = {'operator': operator, 'site': site, 'document': text, 'corrupted': corrupted, 'label': label, 'class': kind}
+				ctx.case(corrupted, {'operator': operator, 'site': site, 'label': label, 'verdict': verdict[:2], 'model': model_verdict, 'class': kind})
+				ctx.count(f'applied:{operator}')
+				ctx.count(f'{operator}:{kind}:{"ill-formed" if "ok" != model_verdict else "well-formed"}')
+				if 'ok' != model_verdict:
+					if 'accepted' == verdict[0]:
+						self.fail('property', (
+							f'ill-formed document accepted (operator {operator}, site {site} of {label}, lines {kind}; the language model rejects it at '
+							f'line {model_verdict}): {first_difference(text, corrupted)}'), case)
+					elif 'rejected-no-position' == verdict[0]:
+						self.fail('property', f'rejection carries no position ({verdict[1]}: {verdict[2]}) for operator {operator}, site {site} of {label}', case)
+					else:
+						bucket = self.cli_by_operator.setdefault(f'{operator}:{kind}' if classes is not None and 'comment' in kind else operator, [])
+						if len(bucket) < 40 and (len(bucket) < 4 or ctx.rng.random() < 0.05):
+							bucket.append(case)
+				elif 'accepted' != verdict[0] and 'UnexpectedToken' == verdict[1] and c04.is_quirk_site(corrupted, verdict[2]):
+					# the known lexing defect (C04:comment-before-member-keyword-prefix): the move put a comment in front of `inline X` / a keyword-like name
+					ctx.count('moved-line-end:known-defect-comment-before-keyword-like-member')
+				elif 'accepted' != verdict[0]:
+					self.fail('corr', (
+						f'model accepts a document with a moved line end that the parser rejects ({verdict[1]}; operator {operator}, site {site} of {label}, '
+						f'lines {kind}): {first_difference(text, corrupted)}'), case)
+
 	def with_blank_lines(self, text, corrupted, operator, site, label):
 		"""the same corruption with whitespace-only lines next to it; the language model arbitrates what is ill-formed"""
 		import json
@@ -129,6 +183,23 @@ class Corruptor:
 					f'{first_difference(text, derived)}'), case)
 			elif answer['ok'] and 'accepted' != verdict[0]:
 				self.fail('corr', f'model accepts a corrupted document with a whitespace-only line {where} the corruption, the parser rejects it ({verdict[1]})', case)
+
+
+def line_kind(line):
+	"""what a physical line is, for the classes of the join operators"""
+	stripped = line.strip()
+	if not stripped:
+		return 'blank'
+	if stripped.startswith('#'):
+		return 'comment'
+	if stripped.startswith('@'):
+		return 'attribute'
+	if line[0] in ' \t':
+		return 'member'
+	for keyword, kind in (('import', 'import'), ('using', 'alias'), ('enum', 'header'), ('struct', 'header'), ('abstract', 'header'), ('inline', 'header')):
+		if stripped.startswith(keyword):
+			return kind
+	return 'other'
 
 
 def blank_line_variants(original, corrupted, rng):
@@ -270,6 +341,7 @@ def run(ctx):
 			continue
 		ctx.count('documents')
 		corruptor.check_document(text, label, max_sites)
+		corruptor.check_arbitrated(text, label, ctx.thorough)
 	command_line(ctx, corruptor, ctx.scale(40, 300), ctx.scale(6, 30))
 
 
@@ -310,10 +382,12 @@ MANIFEST = {
 		'missing_bracket_make_const_rejected, missing_bracket_binary_fixed_rejected, missing_close_bracket_reserved_sizeof_rejected, '
 		'missing_close_bracket_size_rejected, missing_bracket_attribute_rejected and wrong_arity_fixed_rejected (instances), '
 		'bad_width_{array_element,sizeof,make_reserved,make_const}_rejected, missing_operand_{member,constant}_rejected, '
-		'missing_equals_{member,constant}_rejected; and '
+		'missing_equals_{member,constant}_rejected, join_code_comment_rejected (a code line that swallowed the following comment line: plain '
+		'members, enum values, enum / struct headers, integer aliases with `#...` on the same line are accepted in no context); and '
 		'on printed documents empty_struct_rejected and dedented_member_rejected (with member_outside_declaration_rejected). The operators '
 		'themselves are defined in Model/Cats/Corrupt.lean. Model and operators are tied to catbuffer.lark / CatsLarkParser.py by a differential '
-		'run: every shipped .cats file and generated documents x 14 operators x applicable sites must be rejected by lark with a position, and '
+		'run: every shipped .cats file and generated documents x 14 operators x applicable sites must be rejected by lark with a position; x 3 '
+		'operators that move a line end (join-lines, join-lines-flush, split-line), where lark must reject exactly what the Lean language model rejects; and '
 		'through `python -m catparser` a corrupted file reached by import must give a non-zero exit status and no output file.'),
 	'level_note': (
 		'Trusted: Lean kernel + {propext, Classical.choice, Quot.sound}; hand-written model and operator definitions tied by differential execution '
